@@ -73,7 +73,7 @@ func genJSON(t *rapid.T, depth int) string {
 		case 4:
 			return fmt.Sprintf("-0.%d", rapid.IntRange(0, 99).Draw(t, "fp2"))
 		case 5:
-			return rapid.SampledFrom([]string{"9223372036854775807", "-9223372036854775808", "0.0", "-0.0", "1.0e0", "1.5E3", "123456789.125"}).Draw(t, "edge")
+			return rapid.SampledFrom([]string{"9223372036854775807", "-9223372036854775808", "0.0", "-0.0", "1.0e0", "1.5E3", "123456789.125", "-1.5e999", "1.5e999", "-1.0e400", "-1.7976931348623159e308", "1.7976931348623157e308", "-1.7976931348623157e308", "4.9e-324", "-4.9e-324", "1.0e-400"}).Draw(t, "edge")
 		default:
 			return fmt.Sprintf("%d.%de%s%d", rapid.IntRange(0, 9).Draw(t, "m"), rapid.IntRange(0, 99).Draw(t, "f"), rapid.SampledFrom([]string{"", "+", "-"}).Draw(t, "es"), rapid.IntRange(0, 320).Draw(t, "ex"))
 		}
